@@ -86,7 +86,8 @@ def run(ctx):
     with Clock(utc(2024, 3, 5, 12, 0, 7)):
         for n in names:
             ext = EXT[n.split('_')[1][0]]
-            for mode in ('vod', 'live'):
+            # every mode is visited again after the other one: an answer must not depend on what the process served before
+            for mode in ('vod', 'live', 'vod'):
                 sels = selections(rng, ctx.quick())
                 if ctx.quick() and not n.endswith('_enc'):
                     sels = sels[:4]
